@@ -52,7 +52,13 @@ def _offset(u):
     return 1000.0 + _sphere(u)
 
 
-FUNCS = {"offset": _offset, "sphere": _sphere, "multi": _multi, "funnels": _funnels, "plateau": _plateau, "zero": _zero,
+def _partial(u):
+    # only partially defined on the box: NaN on a slab (comparisons between two NaN individuals are decided by
+    # Python's global `random` generator in pyhms - a seeded run must still be reproducible)
+    return float("nan") if u[0] > 0.7 else _multi(u)
+
+
+FUNCS = {"partial": _partial, "offset": _offset, "sphere": _sphere, "multi": _multi, "funnels": _funnels, "plateau": _plateau, "zero": _zero,
          "linear": _linear}
 
 
